@@ -76,6 +76,16 @@ def text_cases(tier):
         out.append((f"text/sequence/{cols}x{rows}{wiring}", HDR + decl(wiring, cols, rows) +
                     f'while True:\n    c = analog_read("A0") // {-(-1024 // cols)}\n    lcd.write(c, 0, "{t2}", clear_row=False)\n'
                     f'    sleep(1)\n    lcd.write(0, 0, "{t1}", clear_row=False, align="right")\n    sleep(1)\n    lcd.line(0, "z", align="center", clear_row=False)\n', 2))
+    # spellings of the alignment keyword the host accepts (it lower-cases the label): same cells on both sides, or rejected
+    for spelled in ("Center", "RIGHT", "Left", "cEnTeR", "Right"):
+        for cols, rows, wiring in ((16, 2, "par"), (20, 4, "i2c")):
+            base = HDR + decl(wiring, cols, rows) + prefill(rows, cols)
+            out.append((f"text/align_spelling/{spelled}/line/{cols}x{rows}{wiring}", base +
+                        f'while True:\n    lcd.line(0, "abc", align="{spelled}")\n', 1))
+            out.append((f"text/align_spelling/{spelled}/write/{cols}x{rows}{wiring}", base +
+                        f'while True:\n    lcd.write(1, 1, "abc", align="{spelled}")\n', 1))
+            out.append((f"text/align_spelling/{spelled}/message/{cols}x{rows}{wiring}", base +
+                        f'while True:\n    lcd.message("ab", "cd", top_align="{spelled}", bottom_align="{spelled}")\n', 1))
     # keyword / positional call shapes
     out.append(("text/write_kw/16x2", HDR + decl("par", 16, 2) + 'while True:\n    lcd.write(3, 1, "kw", align="center", clear_row=False)\n', 1))
     out.append(("text/line_kw/16x2", HDR + decl("par", 16, 2) + 'while True:\n    lcd.line(1, "kw", clear_row=False, align="right")\n', 1))
@@ -128,25 +138,106 @@ def progress_fw(cols, max_value, width, style_char):
     return analyse
 
 
+class _Captured(Exception):
+    """Raised by the round() stand-in: the symbolic fill count has been computed; the rendering is checked separately."""
+
+
+def _capture_fill(hw, lcd, *args, **kw):
+    """Run the real LCD.progress up to the point where the fill count is computed (`int(round(ratio * width))`) and
+    return that value as the engine's symbolic term - without the fork per concrete count that the string rendering
+    (`glyph * filled`) would cause."""
+    L = hw.load("Reduino.Displays.LCD")
+    box = []
+
+    def capturing_round(x, *a):
+        box.append(pysym.p_round(x, *a))
+        raise _Captured()
+    L.round = capturing_round
+    try:
+        lcd.progress(*args, **kw)
+    except _Captured:
+        pass
+    finally:
+        del L.round
+    if box:
+        return box[0]
+    # the code under test no longer rounds with round(): take the count from the rendered row instead (one path per
+    # concrete count - slower, same claims)
+    row = args[0]
+    return lcd.buffer[row].count("#")
+
+
+def _zi(x):
+    return pysym.zint(x) if pysym.is_sym(x) else z3.BitVecVal(int(x), 64)
+
+
+def _numeric_claims(filled, v, M, W):
+    f, vz, Mz, Wz = _zi(filled), _zi(v), _zi(M), _zi(W)
+    cl = z3.If(vz < 0, z3.BitVecVal(0, 64), z3.If(vz > Mz, Mz, vz))
+    prod = cl * Wz
+    dev = prod / Mz
+    claim("fill count stays within the bar", z3.And(f >= 0, f <= Wz))
+    claim("host and device bars differ by at most one cell", z3.And(f - dev <= 1, dev - f <= 1))
+    claim("identical when value*width is a multiple of max_value", z3.Implies(z3.SRem(prod, Mz) == 0, f == dev))
+    claim("saturates at 0", z3.Implies(vz <= 0, f == 0))
+    claim("saturates at the bar width", z3.Implies(vz >= Mz, f == Wz))
+
+
 def progress_host(cols, max_value, width):
+    """numeric part, concrete max/width, symbolic value"""
     def body(hw):
         D = hw.load("Reduino.Displays")
         lcd = D.LCD(i2c_addr=0x27, cols=cols, rows=2)
         v = pysym.sym_int("value", -5, max_value + 5)
-        lcd.progress(0, v, max_value=max_value, width=width, style="hash")
-        filled = lcd.buffer[0].count("#")
+        filled = _capture_fill(hw, lcd, 0, v, max_value=max_value, width=width, style="hash")
         W = cols if width is None else max(1, min(cols, width))
-        vz = pysym.zint(v)
-        M = z3.BitVecVal(max_value, 64)
-        cl = z3.If(vz < 0, z3.BitVecVal(0, 64), z3.If(vz > M, M, vz))
-        prod = cl * z3.BitVecVal(W, 64)
-        dev = prod / M
-        f = z3.BitVecVal(filled, 64)
-        claim("host and device bars differ by at most one cell", z3.And(f - dev <= 1, dev - f <= 1))
-        claim("identical when value*width is a multiple of max_value", z3.Implies(z3.SRem(prod, M) == 0, f == dev))
-        claim("saturates at 0", z3.Implies(vz <= 0, f == 0))
-        claim("saturates at the bar width", z3.Implies(vz >= M, f == W))
-        claim("row keeps the display width", len(lcd.buffer[0]) == cols)
+        claim("a fill count is computed", filled is not None)
+        if filled is not None:
+            _numeric_claims(filled, v, max_value, W)
+    return body
+
+
+def progress_host_symbolic(bits):
+    """numeric part with value, max_value and width all symbolic (the divisor is a solver variable)"""
+    def body(hw):
+        D = hw.load("Reduino.Displays")
+        lcd = D.LCD(i2c_addr=0x27, cols=40, rows=2)
+        hi = (1 << bits) - 1
+        v = pysym.sym_int("value", 0, hi)
+        M = pysym.sym_int("max_value", 1, hi)
+        W = pysym.sym_int("width", 1, 40)
+        filled = _capture_fill(hw, lcd, 0, v, max_value=M, width=W, style="hash")
+        claim("a fill count is computed", filled is not None)
+        if filled is not None:
+            _numeric_claims(filled, v, M, W)
+    return body
+
+
+def progress_host_render(cols, width):
+    """rendering part: whatever count in 0..width the numeric part yields, the row shows exactly that many glyphs"""
+    def body(hw):
+        D = hw.load("Reduino.Displays")
+        L = hw.load("Reduino.Displays.LCD")
+        lcd = D.LCD(i2c_addr=0x27, cols=cols, rows=2)
+        W = cols if width is None else max(1, min(cols, width))
+        k = pysym.sym_int("filled", 0, W)
+        used = []
+
+        def stub_round(x, *a):
+            used.append(1)
+            return k
+        L.round = stub_round
+        try:
+            lcd.progress(0, 3, max_value=7, width=width, style="hash")
+        finally:
+            del L.round
+        row = lcd.buffer[0]
+        if not used:
+            return      # the count is not produced by round(): the numeric/rendering split does not apply (no claim)
+        claim("the row shows exactly `filled` glyphs", _zi(k) == row.count("#"))
+        claim("the glyphs are the first cells of the row", row[:row.count("#")] == "#" * row.count("#"))
+        claim("row keeps the display width", len(row) == cols)
+        claim("other row untouched", lcd.buffer[1] == " " * cols)
     return body
 
 
@@ -156,11 +247,9 @@ def progress_host_monotone(cols, max_value, width):
         lcd = D.LCD(i2c_addr=0x27, cols=cols, rows=2)
         a = pysym.sym_int("a", 0, max_value)
         b = pysym.sym_int("b", 0, max_value)
-        lcd.progress(0, a, max_value=max_value, width=width, style="hash")
-        fa = lcd.buffer[0].count("#")
-        lcd.progress(1, b, max_value=max_value, width=width, style="hash")
-        fb = lcd.buffer[1].count("#")
-        claim("host bar is monotone in value", z3.Implies(pysym.zint(a) <= pysym.zint(b), z3.BoolVal(fa <= fb)))
+        fa = _capture_fill(hw, lcd, 0, a, max_value=max_value, width=width, style="hash")
+        fb = _capture_fill(hw, lcd, 1, b, max_value=max_value, width=width, style="hash")
+        claim("host bar is monotone in value", z3.Implies(_zi(a) <= _zi(b), _zi(fa) <= _zi(fb)))
     return body
 
 
@@ -204,6 +293,12 @@ def _work(item):
     if kind == "pmono":
         _, oid, cols, M, W = item
         return run_host_obligation(oid, progress_host_monotone(cols, M, W), max_paths=2000, timeout_ms=120000, budget_s=600)
+    if kind == "psym":
+        _, oid, bits = item
+        return run_host_obligation(oid, progress_host_symbolic(bits), max_paths=200, timeout_ms=400000, budget_s=1500)
+    if kind == "prender":
+        _, oid, cols, W = item
+        return run_host_obligation(oid, progress_host_render(cols, W), max_paths=2000, timeout_ms=60000, budget_s=300)
     raise ValueError(kind)
 
 
@@ -216,6 +311,9 @@ def run(tier, seed, only=None):
     for cols, M, W in prog:
         items.append(("pfw", f"progress/device/{cols}cols/max={M}/width={W}", cols, M, W, "hash", ord("#")))
         items.append(("phost", f"progress/host_vs_integer/{cols}cols/max={M}/width={W}", cols, M, W))
+        items.append(("prender", f"progress/host_render/{cols}cols/width={W}", cols, W))
+    sym_bits = 6 if tier == "quick" else 8
+    items.append(("psym", f"progress/host_numeric/symbolic[value,max<2^{sym_bits},width<=40]", sym_bits))
     items.append(("pfw", "progress/device/block_style", 16, 100, None, "block", 255))
     items.append(("pmono", "progress/host_monotone/8cols/max=7", 8, 7, None))
     items.append(("diff", "progress/label/16x2", HDR + decl("i2c", 16, 2) +
